@@ -12,7 +12,7 @@ export GOFLAGS=-mod=mod GOPROXY=off
 cd $WT || exit 2
 git checkout -q -- . ; git clean -fdq
 PKG=./$(dirname $DEST)/
-cp $S/demo_test.go $DEST
+mkdir -p $(dirname $DEST); cp $S/demo_test.go $DEST
 TESTS=$(grep -oE '^func (Test[A-Za-z0-9_]+)' $DEST | awk '{print $2}' | paste -sd'|')
 echo "== clean: go test -run '^($TESTS)\$' $PKG"
 if ! go test -vet=off -count=1 -run "^($TESTS)\$" $PKG > /tmp/wt/seed_clean.log 2>&1; then echo "FAIL: demo does not pass on clean tree"; tail -20 /tmp/wt/seed_clean.log; git checkout -q -- .; git clean -fdq; exit 1; fi
